@@ -170,6 +170,43 @@ theorem score_unstripe (hC : 0 < C) (zero : α) (add : α → α → α) (pssm :
       rw [Nat.mul_comm]; exact Nat.div_add_mod i _
     rw [e]
 
+/-- **C01 (3b')**: indexing the result of a full scan, `scores[i]` for `i ≤ L − M`, does not panic and
+    is the window score at position `i` (`offset(row, col) = col · rows + row` is that position). -/
+theorem score_index (hC : 0 < C) (zero : α) (add : α → α → α) (pssm : Mat α K) (N : Nat)
+    (seq : Striped C) (s : List Nat) (inv : Inv N seq s) (hs : ∀ x ∈ s, x < K) (hN : N < K)
+    (hW : pssm.rows - 1 ≤ seq.wrap) :
+    ∃ sc, scoreFull (scoreRowsGeneric zero add pssm seq) seq = .ok sc ∧
+      ∀ i, i < s.length + 1 - pssm.rows → i < s.length →
+        Score.index zero sc i = .ok (windowScore zero add pssm N s i) ∧
+        offset sc (i % sc.data.rows) (i / sc.data.rows) = i := by
+  unfold scoreFull scoreInto
+  rw [if_neg (by rw [inv.rows]; omega)]
+  have hrows : seq.data.rows - seq.wrap = seqRowsOf C s.length := by rw [inv.rows]; omega
+  rw [hrows]
+  obtain ⟨sc, hsc, hspec⟩ := scoreRowsGeneric_spec hC zero add pssm N seq s inv hs hN hW 0
+    (seqRowsOf C s.length) (Nat.le_refl _) Score.empty
+  refine ⟨sc, hsc, ?_⟩
+  intro i hi hiL
+  have hL : 0 < s.length := by omega
+  have hR := seqRowsOf_pos hC hL
+  rw [if_neg (by omega)] at hspec
+  obtain ⟨h1, _, h3⟩ := hspec
+  rw [Nat.sub_zero] at h1
+  have hge := seqRowsOf_mul_ge hC s.length
+  have hcol : i / seqRowsOf C s.length < C := by
+    apply Nat.div_lt_of_lt_mul; omega
+  have hrow : i % seqRowsOf C s.length < seqRowsOf C s.length := Nat.mod_lt _ hR
+  have e : i / seqRowsOf C s.length * seqRowsOf C s.length + i % seqRowsOf C s.length = i := by
+    rw [Nat.mul_comm]; exact Nat.div_add_mod i _
+  constructor
+  · unfold Score.index
+    rw [h1, if_neg (by omega), if_pos ⟨hrow, hcol⟩]
+    have := h3 (i % seqRowsOf C s.length) (i / seqRowsOf C s.length) (Nat.zero_le _) hrow hcol
+    rw [Nat.sub_zero] at this
+    rw [this, e]
+  · unfold offset
+    rw [h1, e]
+
 /-- **C01 (3c)**: `ScoringMatrix::score_position(seq, i)` for a position `i ≤ L − M` does not panic
     and returns the same scalar-order score. -/
 theorem scorePosition_spec (hC : 0 < C) (zero : α) (add : α → α → α) (pssm : Mat α K) (N : Nat)
